@@ -292,6 +292,18 @@ class Check(core.CheckBase):  # pylint: disable=too-many-public-methods
                         if shift == 0 and composed != want:
                             found.append(self.violation('flags|compose-not-or', '%s %r size %d -> %s, OR is %s' % (
                                 cls.__name__, names, size, composed.hex(), want.hex()), single))
+                        # the OR does not depend on the kind of collection, its order or on a member given twice
+                        ordered = sorted(members, key=int)
+                        for label, collection in (('list', ordered), ('reversed-tuple', tuple(reversed(ordered))),
+                                                  ('repeated-members', ordered + ordered[:2] + ordered[-1:]),
+                                                  ('frozenset', frozenset(members))):
+                            other = self.parse.ComposerBinary()
+                            other.compose_numeric_flags(collection, size, shift_right=shift)
+                            self.stats['flag_collections_checked'] += 1
+                            if bytes(other.composed) != composed:
+                                found.append(self.violation(
+                                    'flags|collection-dependent|' + label, '%s %r size %d shift %d: a %s composes %s, the set %s' % (
+                                        cls.__name__, names, size, shift, label, bytes(other.composed).hex(), composed.hex()), single))
                         if shift == 0:
                             parser = self.parse.ParserBinary(composed)
                             parser.parse_numeric_flags('flags', size, cls, shift_left=0)
